@@ -843,8 +843,47 @@ func (fr *frame) symSelect(vals []value, idx *Term) value {
 	return res
 }
 
+// sliceStrSym slices a string with symbolic bounds without enumerating the offset: only the
+// length is concretised, the bytes become selects over the source at lo+j.
+func (fr *frame) sliceStrSym(x str, loT, hiT *Term) value {
+	n := x.length()
+	nT := mkConst(64, uint64(n))
+	ok := mkAnd(mkCmp(opSle, mkConst(64, 0), loT), mkAnd(mkCmp(opSle, loT, hiT), mkCmp(opSle, hiT, nT)))
+	if !fr.m.branch(ok, fr) {
+		fr.rtPanic("slice bounds out of range (symbolic bounds)")
+	}
+	l := int(fr.m.concInt(mkBin(opSub, hiT, loT), fr))
+	if loT.isConst() {
+		return x.slice(int(loT.c), int(loT.c)+l)
+	}
+	bs := x.bytes()
+	vals := make([]value, len(bs))
+	for i, b := range bs {
+		vals[i] = b
+	}
+	out := make([]*Term, l)
+	for j := 0; j < l; j++ {
+		idx := mkBin(opAdd, loT, mkConst(64, uint64(j)))
+		out[j] = fr.symSelect(vals, idx).(*Term)
+	}
+	return mkStr(out)
+}
+
 func (fr *frame) sliceOp(ins *ssa.Slice) value {
 	x := fr.get(ins.X)
+	if xs, isStr := x.(str); isStr {
+		loT := mkConst(64, 0)
+		hiT := mkConst(64, uint64(xs.length()))
+		if ins.Low != nil {
+			loT = toIndex(fr.get(ins.Low), ins.Low.Type())
+		}
+		if ins.High != nil {
+			hiT = toIndex(fr.get(ins.High), ins.High.Type())
+		}
+		if !loT.isConst() || !hiT.isConst() {
+			return fr.sliceStrSym(xs, loT, hiT)
+		}
+	}
 	var lo, hi, max int64 = 0, -1, -1
 	if ins.Low != nil {
 		lo = fr.m.concInt(toIndex(fr.get(ins.Low), ins.Low.Type()), fr)
